@@ -318,7 +318,9 @@ def judge_shortest(ctx, g, n, W, directed, cls, pairs, unweighted=False):
         if s == t:
             continue
         dist = ref.dijkstra(n, Wd, directed, s)
-        path, cost = g.find_shortest_path(s, t, unweighted=unweighted)
+        # (the documented algorithm choices: with positive weights every one of them finds a shortest route)
+        algo = ["auto", "auto", "FW", "D", "BF", "J"][(s * 7 + t * 3 + len(W)) % 6] if all(w > 0 for w in Wd.values()) else "auto"
+        path, cost = g.find_shortest_path(s, t, unweighted=unweighted) if algo == "auto" else g.find_shortest_path(s, t, algorithm=algo, unweighted=unweighted)
         path = [int(v) for v in path]
         if dist[t] == float("inf"):
             if path != [] or cost != float("inf"):
